@@ -38,6 +38,20 @@ def net_value(seed, tier):
                         'net_value_reported': got, 'sum_over_registered_assets': expect})
             if len(wit) > 2:
                 break
+    # several System objects: the net value of a system is the sum over ITS registered assets, also after
+    # a newer System exists
+    for t in range(6):
+        s1 = System()
+        a = [PartProcessor(f'p{j}', value=rng.choice([3, -7, 40])) for j in range(rng.randint(1, 3))]
+        Maintainer(value=rng.choice([-60, 25]))
+        s1.simulate(rng.choice([0, 2]), print_summary=False)
+        own = sum(x.value for x in s1._assets if isinstance(x, Asset))
+        s2 = System()
+        PartHandler('h', value=rng.choice([500, -500]))
+        got = s1.get_net_value_of_assets()
+        if got != own:
+            wit.append({'kind': 'net-value-other-system', 'net_value_reported': got, 'sum_over_its_registered_assets': own})
+            break
     # batches inside batches (legal: a Batch is a Part; made by a custom PartGenerator): "a batch is worth
     # the sum of its parts", and source / sink accounting follows
     from simprocesd.model.factory_floor import Part, Batch, PartGenerator
